@@ -68,7 +68,7 @@ func KeyWrap(block cipher.Block, cek []byte) ([]byte, error) {
 
 // KeyUnwrap implements NIST key unwrapping; it unwraps a content encryption key (cek) with the given block cipher.
 func KeyUnwrap(block cipher.Block, ciphertext []byte) ([]byte, error) {
-	if len(ciphertext)%8 != 0 {
+	if len(ciphertext)%8 != 0 || len(ciphertext) < 8 {
 		return nil, errors.New("square/go-jose: key wrap input must be 8 byte blocks")
 	}
 
